@@ -1,4 +1,5 @@
 import AmVerif.Model.Graph
+import AmVerif.Model.Chunk
 import AmVerif.Model.Wire
 /-
   Driver engine `crdt`: replicas as M5 documents over a changes of changes announced by
@@ -10,6 +11,9 @@ open AmVerif AmVerif.Crdt AmVerif.Wire
 structure State where
   changes : List Change := []
   replicas : List (String × Doc) := []
+  files : List (String × Bytes) := []
+  /-- document / bundle chunks announced by the harness: chunk hash ↦ hashes of the changes inside -/
+  docChunks : List (Bytes × List Hash) := []
   deriving Inhabited
 
 def parseId (s : String) : Option OpId :=
@@ -110,8 +114,71 @@ def showHashes (hs : List Hash) : String :=
 def summary (d : Doc) : String :=
   s!"heads={showHashes d.heads} missing={showHashes (d.missingDeps [])} applied={d.applied.length}"
 
+/-- the changes a loaded chunk contributes (change chunks by their hash, document and bundle chunks
+    through the announced table) -/
+def chunkChanges (st : State) (c : Chunk.Chunk) : Option (List Change) :=
+  if c.ty = 1 || c.ty = 2 then (st.changes.find? (fun x => x.hash == c.hash)).map (fun x => [x])
+  else
+    match st.docChunks.find? (fun p => p.1 == c.hash) with
+    | none => none
+    | some p => p.2.mapM (fun h => st.changes.find? (fun x => x.hash == h))
+
+/-- `load_with_options` above the chunk level: document chunk first ⇒ reconstructed document, then
+    every later chunk's changes through `apply_changes`; the `MissingDeps` rule for change-first files -/
+def loadDoc (st : State) (mode : Chunk.OnPartial) (data : Bytes) : Option (Except Unit Doc) :=
+  if data.isEmpty then some (.ok Doc.empty) else
+  match Chunk.parseChunk (fun _ _ => true) data with
+  | .error _ => some (.error ())
+  | .ok (first, rest) =>
+    if !first.checksumValid then some (.error ()) else
+    let l := Chunk.loadChunks (fun _ _ => true) (rest.length + 1) rest []
+    if l.error.isSome && mode == .error then some (.error ()) else
+    match chunkChanges st first, l.chunks.mapM (chunkChanges st) with
+    | some fc, some rcs =>
+      let firstIsDoc := first.ty = 0
+      let d0 : Doc := if firstIsDoc then { applied := fc, queue := [] } else Doc.empty
+      -- a later document chunk whose heads are all known contributes nothing
+      let later := (l.chunks.zip rcs).flatMap (fun p =>
+        if p.1.ty = 0 && (headsOf p.2).all (fun h => d0.hasChange h) then [] else p.2)
+      let batch := (if firstIsDoc then [] else fc) ++ later
+      match applyBatch d0 batch with
+      | (_, .error _) => some (.error ())
+      | (d, .ok _) =>
+        if l.error.isNone && !d.queue.isEmpty && !firstIsDoc && mode == .error then some (.error ())
+        else some (.ok d)
+    | _, _ => none
+
+def flipBit (bs : Bytes) (i : Nat) : Bytes :=
+  match bs[i / 8]? with
+  | some b => bs.set (i / 8) (b ^^^ (1 <<< (UInt8.ofNat (i % 8))))
+  | none => bs
+
+def parseMode (s : String) : Chunk.OnPartial := if s == "ignore" then .ignore else .error
+
+def loadResult (st : State) (r : String) (res : Option (Except Unit Doc)) : State × List String :=
+  match res with
+  | none => (st, ["unknown-chunk"])
+  | some (.error _) => (st, ["err"])
+  | some (.ok d) => (setReplica st r d, [s!"ok {summary d}"])
+
 def exec (st : State) (toks : List String) : State × List String :=
   match toks with
+  | ["crdt.file", f, hex, _exp] =>
+    match unhx hex with
+    | some b => ({ st with files := (f, b) :: st.files }, ["ok"])
+    | none => (st, ["bad-input"])
+  | ["crdt.docchunk", ch, hs] =>
+    match unhx ch, unhxList hs with
+    | some c, some l => ({ st with docChunks := (c, l) :: st.docChunks }, ["ok"])
+    | _, _ => (st, ["bad-input"])
+  | ["crdt.loadcut", r, mode, f, k] =>
+    match st.files.find? (fun p => p.1 == f), k.toNat? with
+    | some p, some k => loadResult st r (loadDoc st (parseMode mode) (p.2.take k))
+    | _, _ => (st, ["bad-input"])
+  | ["crdt.loadflip", r, mode, f, bit] =>
+    match st.files.find? (fun p => p.1 == f), bit.toNat? with
+    | some p, some b => loadResult st r (loadDoc st (parseMode mode) (flipBit p.2 b))
+    | _, _ => (st, ["bad-input"])
   | ["crdt.def", hash, actor, seq, startOp, deps, ops, _raw] =>
     match unhx hash, unhx actor, seq.toNat?, startOp.toNat?, unhxList deps, parseOps ops with
     | some h, some a, some s, some so, some ds, some os =>
